@@ -31,6 +31,7 @@ type Prog struct {
 	Tags    string
 	RepoDir string
 	Renames []string // baseline names resolved to renamed symbols (symbols.go)
+	Overlay map[string][]byte
 }
 
 func short(s string) string {
@@ -96,7 +97,7 @@ func loadProg(repo string, tags string, overlay map[string][]byte) (*Prog, error
 	all := ssautil.AllFunctions(prog)
 	cg := vta.CallGraph(all, cha.CallGraph(prog))
 	renames := applyBaseline(prog, all)
-	P := &Prog{Renames: renames, Pkgs: pkgs, Fset: prog.Fset, SSA: prog, CG: cg, byName: map[string]*ssa.Function{}, NumPkgs: len(pkgs), Tags: tags, RepoDir: repo}
+	P := &Prog{Overlay: overlay, Renames: renames, Pkgs: pkgs, Fset: prog.Fset, SSA: prog, CG: cg, byName: map[string]*ssa.Function{}, NumPkgs: len(pkgs), Tags: tags, RepoDir: repo}
 	for f := range all {
 		if f.Pkg == nil && f.Parent() == nil && f.Synthetic == "" {
 			continue
@@ -192,6 +193,11 @@ func CalleeName(in ssa.Instruction) string {
 		return "invoke:" + short(types.TypeString(cc.Value.Type(), nil)) + "." + cc.Method.Name()
 	}
 	if f := cc.StaticCallee(); f != nil {
+		if ws := baselineWrappers[short(f.String())]; len(ws) > 0 && in.Parent() != nil {
+			if w, _, ok := asBaselineWrapper(NewRenderer(in.Parent()), cc); ok {
+				return w
+			}
+		}
 		return FnName(f)
 	}
 	if b, ok := cc.Value.(*ssa.Builtin); ok {
